@@ -70,8 +70,13 @@ pub struct XStats {
 /// `stream()` consumed on one thread, FnRefs dropped on `workers` other threads.
 /// Returns violations of C05 (stall / early end / panic) and of the ordering guarantees as seen
 /// across threads (reported under C05's cross-thread clause; C01/C02 use the director).
+/// build() panicking is C11's business: every other workload skips such a graph.
+pub fn try_build(gs: &GraphSpec) -> Option<FnGraph<TFn>> {
+    std::panic::catch_unwind(std::panic::AssertUnwindSafe(|| tfn::build(gs))).ok()
+}
+
 pub fn xthread_stream(gs: &GraphSpec, seed: u64, workers: usize, reverse: bool, stats: &mut XStats) -> Vec<Violation> {
-    let g = tfn::build(gs);
+    let Some(g) = try_build(gs) else { return Vec::new() };
     let ug = UserGraph::from_spec(gs);
     let built = tfn::built_of(&g);
     let n = gs.n;
@@ -219,7 +224,7 @@ pub fn xthread_stream(gs: &GraphSpec, seed: u64, workers: usize, reverse: bool, 
 
 /// k threads, each running director-controlled cases of `&self` APIs on ONE shared graph value.
 pub fn threads_directors(gs: &GraphSpec, seed: u64, k: usize, runs_per_thread: usize, cfg_b: bool) -> (Vec<Violation>, u64) {
-    let g = tfn::build(gs);
+    let Some(g) = try_build(gs) else { return (Vec::new(), 0) };
     let ug = UserGraph::from_spec(gs);
     let built = tfn::built_of(&g);
     let n = gs.n;
@@ -530,7 +535,8 @@ pub async fn send_user(log: SendLog, f: usize) {
 #[cfg(not(feature = "b"))]
 pub fn tokio_multi_thread(gs: &GraphSpec, seed: u64, tasks: usize) -> (Vec<Violation>, u64) {
     use crate::director::Ev;
-    let g = Arc::new(tfn::build(gs));
+    let Some(g) = try_build(gs) else { return (Vec::new(), 0) };
+    let g = Arc::new(g);
     let ug = UserGraph::from_spec(gs);
     let built = tfn::built_of(&g);
     let n = gs.n;
